@@ -35,7 +35,7 @@ def c18(ctx):
     nm = RA.rule_mono(ctx, {"cms"})
     RA.rule_cap(ctx)
     RA.rule_logstep(ctx)
-    ctx.floor("range", 2 * 15 + 8, "15 decidable counter stores x2 bounds + 8 unsigned subtractions")
+    ctx.floor("range", 2 * 15 + 6, "15 decidable counter stores x2 bounds + unsigned subtractions")
     ctx.floor("mono", 6)
     ctx.floor("cap", 2)
     ctx.floor("ceil", 4 * 3)
@@ -105,3 +105,91 @@ def c05(ctx):
     ctx.floor("newcount", 3)
     ctx.floor("nadd-once", 6)
     ctx.undecided_clauses.append("the step num_reserved -> num_reserved+1 being certain relies on rand < base**0 (numeric); distribution of log steps (C06)")
+
+
+# ---------------------------------------------------------------------------
+from . import rules_hh as RH
+
+
+@prop("C03", "other",
+      "Structural necessary conditions of 'never over-count / never report an un-added key', decided on every path of the "
+      "heavy-hitter kernels: key identity is bytes AND length at every stored-key comparison (keyid); the per-cell transition "
+      "is the Boyer-Moore table (count rises only on a match, by exactly the added amount; replacement only when the incoming "
+      "amount wins, writing bytes+length+count together) (bm-table); no counter wraps in either direction (range, cap); stored "
+      "lengths never exceed max_key_len so reported keys are stored keys (keylen-inv, ctor-range, report); reported counts are "
+      "the reader kernel's running max over matching cells (maxcount, same-kernel). Not decided: the induction count <= f(key) (hand argument).")
+def c03(ctx):
+    F = facts_of(ctx)
+    hh = [("heavyhitters", "HeavyHitters")]
+    RA.rule_bind(ctx, hh)
+    RA.rule_ceil(ctx)
+    RH.rule_ctor_range(ctx)
+    RH.rule_keyid(ctx)
+    RH.rule_bm_table(ctx)
+    RH.rule_keylen_inv(ctx)
+    RA.rule_range(ctx, {"lhh_count"})
+    RA.rule_cap(ctx, hh)
+    RH.rule_maxcount(ctx)
+    RH.rule_report(ctx)
+    ctx.floor("keyid", 3)
+    ctx.floor("bm-table", 8)
+    ctx.floor("range", 20)
+    ctx.floor("keylen-inv", 2)
+    ctx.undecided_clauses.append("the induction 'stored count <= true count of the stored key' from O1-O3 is a hand argument (DESIGN.md C03)")
+
+
+@prop("C04", "other",
+      "Structural necessary conditions of the majority guarantee: the Boyer-Moore transition table O1-O4 in _add and _merge "
+      "(the potential argument of DESIGN.md needs exactly these cases), key identity = bytes AND length (keyid), all rows scanned "
+      "by the reader kernel and by the candidate scan, only empty cells skipped (scan-all), writer and reader normalise keys "
+      "identically and address the same cells (keynorm, addr). Not decided: the side condition 'absent 32-bit saturation' and the "
+      "potential-function induction itself (hand argument).")
+def c04(ctx):
+    F = facts_of(ctx)
+    hh = [("heavyhitters", "HeavyHitters")]
+    RA.rule_bind(ctx, hh)
+    RH.rule_ctor_range(ctx)
+    RH.rule_keyid(ctx)
+    RH.rule_bm_table(ctx)
+    RH.rule_keylen_inv(ctx)
+    RH.rule_keynorm(ctx)
+    RH.rule_hh_addr(ctx)
+    RH.rule_maxcount(ctx)
+    RH.rule_report(ctx)
+    RH.rule_skip_zero(ctx)
+    mk = RA.merge_kernels(F, hh)
+    RA.rule_cover(ctx, mk)
+    ctx.floor("keyid", 3)
+    ctx.floor("bm-table", 8)
+    ctx.floor("keynorm", 4)
+    ctx.floor("scan-all", 4)
+    ctx.floor("addr", 6)
+
+
+@prop("C13", "other",
+      "Cache coherence and provenance of query(k, threshold), decided structurally: the candidate cache is reused only on paths "
+      "whose facts entail recorded n_added >= current and recorded threshold == effective threshold; every rebuild records both "
+      "keys and starts from an empty Counter (cachekey); every table-writing method bumps n_added through its kernel or rebuilds "
+      "(mutators, nadd-once, sumcounters); a candidate is listed iff its count >= threshold, default threshold uint32(phi*n_added()) "
+      "in both places (filter); listed counts come from the same reader kernel as hh[key] (same-kernel); the answer is "
+      "most_common(k) unmodified (topk); the scan covers all cells and key identity includes the length (scan-all, keyid, report).",
+      trusted=("collections.Counter.most_common: sorted non-increasing, at most k, distinct keys",))
+def c13(ctx):
+    F = facts_of(ctx)
+    hh = [("heavyhitters", "HeavyHitters")]
+    RA.rule_bind(ctx, hh)
+    RH.rule_cachekey(ctx)
+    RH.rule_mutators(ctx)
+    RH.rule_filter(ctx)
+    RH.rule_topk(ctx)
+    RH.rule_report(ctx)
+    RH.rule_skip_zero(ctx)
+    RH.rule_keyid(ctx)
+    RH.rule_maxcount(ctx)
+    ks = RH.hh_kernels(F)
+    RA.rule_nadd_once(ctx, [ks["add"]])
+    RA.rule_sumcounters(ctx, [ks["merge"]])
+    ctx.floor("cachekey", 6)
+    ctx.floor("mutators", 3)
+    ctx.floor("filter", 4)
+    ctx.floor("topk", 2)
